@@ -85,6 +85,17 @@ CHECKS = {
         note=TB + "; subordinate read data is constrained only while at most one subordinate answers (CSR zero-when-idle rule).",
         technique="TLA+ spec + TLC model checking; exported vectors replayed on the real design; TLC trace validation of trees against the flat spec",
         design="5 (C06)"),
+    "C10": dict(
+        text=("TLC model-checks specs/WbCsrBridge_MC.tla (ratios 1,2,4; every select mask; read/write; spaced "
+              "and back-to-back transfers; cyc without stb; arbitrary CSR read data; protocol-abiding "
+              "initiator) with history variables restating latency = ratio+1, one access per selected granule "
+              "in ascending order at adr*ratio+index, lane placement and absence of stray strobes; TLC "
+              "-simulate behaviours are replayed on the real bridge for all ten legal width pairs; random "
+              "geometries alone and over a real csr.Multiplexer are validated by TLC against the bridge and "
+              "the multiplexer specifications."),
+        note=TB + "; the initiator is assumed protocol-abiding (holds a transfer until acknowledged), as the property states.",
+        technique="TLA+ spec + TLC model checking; TLC-generated behaviours replayed on the real design; TLC trace validation",
+        design="5 (C10)"),
 }
 
 PENDING = "check not built yet in this round; see DESIGN.md section 13 for the build order"
